@@ -101,6 +101,11 @@ def gen_hash():
 
 
 def cache_dir(tc, seed, tag=None):
+    root = os.path.join(C.BUILD, "progs")
+    if os.path.isdir(root):                      # observations of other tree states are useless: free the disk
+        for o in os.listdir(root):
+            if o != tc["hash"]:
+                shutil.rmtree(os.path.join(root, o), ignore_errors=True)
     return os.path.join(C.BUILD, "progs", tc["hash"], "%s-%s" % (seed, tag or gen_hash()))
 
 
